@@ -234,7 +234,14 @@ def job_conventions():
     # the loop state by role, not by name: the two lists that both loops extend and the function returns (in the order of
     # the return statement: permutation, signs) and the variable the outer loop binds to the shell
     _, _, ret, outer_targets, _, carried = source.loop_roles("iodata.convert", "convert_conventions", 0)
-    PERM, SIGNS = [nm for nm in ret if nm in carried][:2]
+    roles = [nm for nm in ret if nm in carried][:2]
+    if len(roles) != 2 or not outer_targets:
+        # no pair of lists that the shell loop extends and the function returns: the loop contracts do not apply
+        led = Ledger()
+        led.record(f"{T_CONV}::loop-contract.applies", "anchor", "unknown", "ast", 0.0, detail="convert_conventions no longer accumulates its two results in the shell loop: re-annotation needed")
+        values.ABSTRACT_INT_PRODUCTS[0] = False
+        return led
+    PERM, SIGNS = roles
     SHELL = outer_targets[0]
 
     def fresh_lists(interp, frame, tag):
